@@ -15,9 +15,9 @@ func TestC35(t *testing.T) {
 		"with single approvals and approval rounds over pools 4..maxN and 5 chain ids, plus a directed scenario walking every non-owner path. After EVERY operation " +
 		"the registry (all 7 record fields for each id) must equal the model registry; at each effect: record == approved request, registration never overwrites a registered id, " +
 		"update/removal stems from a request signed by the owner registered at request time. Distinct = (op kind, success, tag) and approval fingerprints")
-	cfg := govmodel.Config{Property: "C35", Histories: r.N(220, 3500), Ops: r.N(80, 110), MinN: 4, MaxN: r.N(10, 25),
+	cfg := govmodel.Config{Property: "C35", Histories: r.N(220, 10000), Ops: r.N(80, 110), MinN: 4, MaxN: r.N(10, 25),
 		Wt:      govmodel.Weights{Node: 1, SideChain: 6, Relayer: 0, Neo3: 0, SecondRound: 10},
-		Scripts: govmodel.RegistryScripts(), ScriptReps: r.N(14, 110), RealSig: true}
+		Scripts: govmodel.RegistryScripts(), ScriptReps: r.N(14, 220), RealSig: true}
 	govmodel.Run(r, cfg)
 	r.Require("registry_register_applied", r.N(200, 3000))
 	r.Require("registry_update_applied_after_owner_request", r.N(60, 900))
